@@ -363,6 +363,13 @@ def random_polygon(rng):
     return f"rect:n{n}:R{R}", subdivided_rectangle(rng, min(n, 80), R)
 
 
+def _nonconvex(P):
+    """accounting only (evidence: non-trivial cases): some vertex of the cycle is reflex or straight"""
+    n = len(P)
+    turns = [_cross(P[i - 1], P[i], P[(i + 1) % n]) for i in range(n)]
+    return not (all(t > 0 for t in turns) or all(t < 0 for t in turns))
+
+
 def _random_poly_job(args):
     case, seed, pseed = args
     core.import_forsys()
@@ -398,7 +405,7 @@ def run(ctx):
             case += 1
             n_grid += 1
             payloads[case] = {"kind": "poly", "src": "grid:" + cfg, "P": inst["P"]}
-            ctx.add_case(payloads[case])
+            ctx.add_case(payloads[case], nontrivial=_nonconvex(inst["P"]))
             chunk.append((case, inst["P"], "grid"))
             if len(chunk) >= 100:
                 chunks.append((ctx.seed, chunk))
@@ -434,7 +441,7 @@ def run(ctx):
         rjobs.append((case, ctx.seed, ctx.seed * 104729 + i))
     for cid, evs, payload in core.parallel_map(_random_poly_job, rjobs, chunksize=4):
         payloads[cid] = payload
-        ctx.add_case(payload)
+        ctx.add_case(payload, nontrivial=_nonconvex(payload["P"]))
         results.append((cid, evs))
     dchunk = []
     for src, P in degenerate_cycles():
@@ -475,7 +482,8 @@ def run(ctx):
                 "integral embedding) and every output is judged by TLC; plus random simple polygons with up to 80 "
                 "vertices (star-shaped, 2-opt, combs, spirals, subdivided rectangles), degenerate cycles (trivial: "
                 "rejected by premises) and random Voronoi tissues. Distinct = distinct abstract input; non-trivial = "
-                "any polygon / random tissue, catalogue sub-tissues with at least two cells.")
+                "polygons with at least one reflex or straight vertex (strictly convex ones are run but not counted), "
+                "catalogue sub-tissues with at least two cells, random tissues.")
     ctx.exhaustive = True
     ctx.extra["exhaustive_scope"] = {"polygon_cfgs": cfgs, "grid_polygons": n_grid, "tissue_cfg": tcfg,
                                      "bases": bases, "catalogue_instances": n_cat,
